@@ -282,3 +282,7 @@ def run(ck, prog, ctx):
         wb = prog.one(r"^term::internal::HpoTermInternal::as_bytes$")
         if wb is not None:
             layout.check_record_layout(ck, "LAYOUT", prog, wb, db, "HpoTermInternal", "term")
+    # container methods of the wrapper types answer with the same-named method of one inner collection
+    ck.rule("WRAPPER", "len / is_empty / contains / get / iter / push ... of a wrapper type delegate to the same-named method of ONE inner collection, un-negated (DESIGN 3.9)")
+    from engines import check_wrappers
+    check_wrappers(ck, "WRAPPER", prog, r"^src/parser/binary\.rs$", floor=2)
